@@ -18,7 +18,7 @@ variable {P : Type} [DecidableEq P]
     the second operand is not evaluated. -/
 theorem C18_error_propagates (sys : Sys P) (n : Nat) (s : St P) (v : Nat) (p : P) (e : Expr P)
     (er : Err) (g : Bool) (s₁ : St P)
-    (hl : lookup s.cache (v, p) = none) (hin : sys.input v p = none) (hns : (v, p) ∉ s.stack)
+    (hl : lookup s.cache (sys.slot (v, p)) = none) (hin : sys.input v p = none) (hns : (v, p) ∉ s.stack)
     (hsp : ¬ sys.msl ≤ (s.stack.filter (fun k => k.1 = v)).length) (hf : sys.formula v p = some e)
     (he : runE sys n { s with stack := (v, p) :: s.stack } e = some (.error er, g, s₁)) :
     run sys (n+1) s v p = some (.error er, g, { s₁ with stack := s₁.stack.tail }) ∧
@@ -37,17 +37,17 @@ theorem C18_fault_raises (sys : Sys P) (n : Nat) (s : St P) (id : Nat) (a : Expr
 
 /-- No value is recorded for a node whose computation did not complete, and the evaluation stack
     is restored (`finally`), whatever the error and wherever it was raised. -/
-theorem C18_no_partial_store (sys : Sys P) (n : Nat) (s : St P) (v : Nat) (p : P) (er : Err) (g : Bool)
-    (s' : St P) (h : run sys n s v p = some (.error er, g, s')) :
+theorem C18_no_partial_store (sys : Sys P) (hid : ∀ v p, sys.ckey v p = p) (n : Nat) (s : St P) (v : Nat) (p : P)
+    (er : Err) (g : Bool) (s' : St P) (h : run sys n s v p = some (.error er, g, s')) :
     lookup s'.cache (v, p) = lookup s.cache (v, p) ∧ s'.stack = s.stack ∧
     ∀ k ∈ s.stack, lookup s'.cache k = lookup s.cache k :=
-  ⟨run_error_no_store sys n s v p er g s' h, run_stack sys n s v p _ g s' h,
-   run_keeps_stack_nodes sys n s v p _ g s' h⟩
+  ⟨run_error_no_store sys hid n s v p er g s' h, run_stack sys n s v p _ g s' h,
+   run_keeps_stack_nodes sys hid n s v p _ g s' h⟩
 
 /-- The same at top level: a failed request leaves the stack empty, nothing marked, and no entry
     for the requested node. -/
-theorem C18_stack_restored (sys : Sys P) (n : Nat) (s : St P) (hs : s.stack = []) (k : Node P)
-    (hl : lookup s.cache k = none) (er : Err) (g : Bool) (s' : St P)
+theorem C18_stack_restored (sys : Sys P) (hid : ∀ v p, sys.ckey v p = p) (n : Nat) (s : St P) (hs : s.stack = [])
+    (k : Node P) (hl : lookup s.cache k = none) (er : Err) (g : Bool) (s' : St P)
     (h : request sys n s k = some (.error er, g, s')) :
     s'.stack = [] ∧ s'.inval = [] ∧ lookup s'.cache k = none := by
   obtain ⟨h1, h2, s₁, hrun, h3⟩ := C02_stack_and_purge sys n s hs k _ g s' h
@@ -55,36 +55,37 @@ theorem C18_stack_restored (sys : Sys P) (n : Nat) (s : St P) (hs : s.stack = []
   rw [h3 k]
   split
   · rfl
-  · rw [run_error_no_store sys n s k.1 k.2 er g s₁ hrun]; exact hl
+  · rw [run_error_no_store sys hid n s k.1 k.2 er g s₁ hrun]; exact hl
 
 /-- Values completed before (and during) a failed request remain correct: the ghost-clean
     invariant survives failures, for all systems … -/
-theorem C18_completed_remain_consistent (sys : Sys P) (n : Nat) (s : St P) (hc : GClean sys s.cache)
+theorem C18_completed_remain_consistent (sys : Sys P) (hk : SlotCoherent sys) (n : Nat) (s : St P) (hc : GClean sys s.cache)
     (v : Nat) (p : P) (r : Res) (g : Bool) (s' : St P) (h : run sys n s v p = some (r, g, s')) :
     GClean sys s'.cache :=
-  (run_clean sys n s v p r g s' hc h).1
+  (run_clean sys hk n s v p r g s' hc h).1
 
 /-- … and for DAG systems the failed request itself returns exactly the meaning's error and keeps
     the state consistent, so that every later request behaves as it would on a simulation where
     the failed request was never made (`C01_calculate_eq_den` from the state before or after). -/
-theorem C18_as_if_never (sys : Sys P) (rk : Nat → Nat) (hr : VarRanked sys rk) (hmsl : 1 ≤ sys.msl)
+theorem C18_as_if_never (sys : Sys P) (hk : SlotCoherent sys) (rk : Nat → Nat) (hr : VarRanked sys rk) (hmsl : 1 ≤ sys.msl)
     (n : Nat) (s : St P) (hc : Cons sys s.cache) (hs : s.stack = []) (hi : s.inval = [])
     (kf : Node P) (er : Err) (hf : den sys n kf.1 kf.2 = some (.error er))
     (k : Node P) (r : Res) (hd : den sys n k.1 k.2 = some r) :
     ∃ sf s₁ s₂, request sys n s kf = some (.error er, false, sf) ∧
       request sys n sf k = some (r, false, s₁) ∧ request sys n s k = some (r, false, s₂) := by
-  obtain ⟨sf, h1, hcf, hsf, hif⟩ := C01_calculate_eq_den sys rk hr hmsl n s hc hs hi kf.1 kf.2 _ hf
-  obtain ⟨s₁, h2, _⟩ := C01_calculate_eq_den sys rk hr hmsl n sf hcf hsf hif k.1 k.2 r hd
-  obtain ⟨s₂, h3, _⟩ := C01_calculate_eq_den sys rk hr hmsl n s hc hs hi k.1 k.2 r hd
+  obtain ⟨sf, h1, hcf, hsf, hif⟩ := C01_calculate_eq_den sys hk rk hr hmsl n s hc hs hi kf.1 kf.2 _ hf
+  obtain ⟨s₁, h2, _⟩ := C01_calculate_eq_den sys hk rk hr hmsl n sf hcf hsf hif k.1 k.2 r hd
+  obtain ⟨s₂, h3, _⟩ := C01_calculate_eq_den sys hk rk hr hmsl n s hc hs hi k.1 k.2 r hd
   exact ⟨sf, s₁, s₂, h1, h2, h3⟩
 
 /-- Once the cause is removed (fewer armed faults, same rules), the state left by the failures is
     still consistent for the repaired system and the same request succeeds with the right value. -/
-theorem C18_retry_succeeds (a b : Sys P) (hab : FewerFaults a b) (rk : Nat → Nat) (hr : VarRanked b rk)
+theorem C18_retry_succeeds (a b : Sys P) (hab : FewerFaults a b) (hck : a.ckey = b.ckey) (hk : SlotCoherent b)
+    (rk : Nat → Nat) (hr : VarRanked b rk)
     (hmsl : 1 ≤ b.msl) (n : Nat) (s : St P) (hc : Cons a s.cache) (hs : s.stack = []) (hi : s.inval = [])
     (k : Node P) (x : Val) (hd : den b n k.1 k.2 = some (.ok x)) :
     ∃ s', request b n s k = some (.ok x, false, s') ∧ Cons b s'.cache ∧ s'.stack = [] ∧ s'.inval = [] :=
-  C01_calculate_eq_den b rk hr hmsl n s (cons_fewerFaults a b hab s.cache hc) hs hi k.1 k.2 _ hd
+  C01_calculate_eq_den b hk rk hr hmsl n s (cons_fewerFaults a b hab hck s.cache hc) hs hi k.1 k.2 _ hd
 
 /-- a fault armed, then removed: the request fails, then succeeds with the meaning -/
 def faultySys (armed : Bool) : Sys Nat where
@@ -97,13 +98,14 @@ def faultySys (armed : Bool) : Sys Nat where
   armed id := armed && id == 7
   msl := 1
   noStore _ := false
+  ckey _ p := p
 
 example : request (faultySys true) 5 St.init (1, 0) = some (.error .fault, false, St.init) ∧
     request (faultySys false) 5 St.init (1, 0) = some (.ok [11], false, ⟨[((1, 0), ([11], false))], [], []⟩) ∧
     FewerFaults (faultySys true) (faultySys false) := by
   refine ⟨?_, ?_, ?_⟩
-  · simp [request, run, runE, faultySys, lookup, store, purge, St.init]
-  · simp [request, run, runE, faultySys, lookup, store, purge, St.init]
+  · simp [request, run, runE, faultySys, lookup, store, purge, St.init, Sys.slot]
+  · simp [request, run, runE, faultySys, lookup, store, purge, St.init, Sys.slot]
   · refine ⟨rfl, rfl, rfl, rfl, rfl, rfl, ?_⟩
     intro id h; simp [faultySys] at h
 
